@@ -12,7 +12,7 @@ from .common import Result, Batch
 
 ID = 'C07'
 FUNCTIONS = ['encoder.find_mode', 'encoder.is_alphanumeric', 'encoder.is_kanji', 'encoder.make_segment', 'encoder.data_to_bytes',
-             'encoder.is_mode_supported', 'encoder.normalize_mode']
+             'encoder.is_mode_supported', 'encoder.normalize_mode', 'encoder.write_segment', '__init__.QRCode.mode']
 EXPLANATION = ('find_mode / make_segment executed on byte strings whose bytes are free 8-bit variables (isdigit, the compiled character '
                'class and is_kanji modelled from their own source); every path condition is compared by z3 with the ISO predicates '
                '(digits; the 45 characters; valid Shift JIS pairs in 8140-9FFC/E040-EBBF; GB2312 pairs for hanzi).')
@@ -26,7 +26,7 @@ JOB_TIMEOUT = {'quick': 900, 'thorough': 2400}
 
 
 def preflight():
-    return common.preflight(FUNCTIONS, ('consts', 'encoder'))
+    return common.preflight(FUNCTIONS)
 
 
 def jobs(tier, seed):
@@ -37,6 +37,11 @@ def jobs(tier, seed):
         for mode in S.MODE_NAMES:
             out.append({'name': f'make_segment:{mode}:n={n}', 'kind': 'req', 'n': n, 'mode': mode, 'cost': 2 ** n})
     out.append({'name': 'is_mode_supported', 'kind': 'sup', 'cost': 5})
+    # symbol level: the mode QRCode reports is the mode indicator a reader finds (C01 machinery, only that obligation kept)
+    from . import c01
+    for c in c01.cases(tier):
+        if c['name'].startswith(('mode:', 'auto:', 'cci:')) and (tier == 'thorough' or not c['name'].startswith('cci:') or 'v10' in c['name']):
+            out.append({'name': 'symbol:' + c['name'], 'kind': 'sym', 'case': c, 'cost': c['cost']})
     return out
 
 
@@ -46,6 +51,17 @@ def run_job(spec):
     enc, consts = L_.encoder, L_.consts
     if spec['kind'] == 'sup':
         return job_sup(res, enc, consts)
+    if spec['kind'] == 'sym':
+        from . import c01
+        r = c01.run_job({'case': spec['case']})
+        r['name'] = spec['name']
+        keep = [v for v in r['violations'] if v['key'] == 'mode-indicator']
+        for v in keep:
+            v['input']['symbol_case'] = True
+        dropped = len(r['violations']) - len(keep)
+        r['violations'] = keep
+        r['obligations'] -= dropped
+        return r
     n = spec['n']
     data = SBytes.fresh('c', n)
 
@@ -114,6 +130,16 @@ def replay(viol):
     import segno.encoder as enc
     from segno import consts
     inp = viol['input']
+    if inp.get('symbol_case'):
+        from . import c01
+        import segno
+        content, exp = c01.concrete_content(inp)
+        try:
+            q = segno.make(content, **inp['kw'])
+        except Exception as e:
+            return False, f'make raised {e!r}'
+        bad = [b for b in c01.judge_concrete(q, exp, inp['kw']) if 'QRCode.mode' in b]
+        return bool(bad), f'make({content!r}, {inp["kw"]}) -> {q.designator}: {bad}'
     if inp.get('sup'):
         got = enc.is_mode_supported(S.mode_const(consts, inp['mode']), inp['v'])
         return bool(got) != T.mode_supported(inp['mode'], inp['v']), f"is_mode_supported({inp['mode']}, {inp['v']}) = {got}"
